@@ -3,7 +3,7 @@
 from hypothesis import strategies as st
 
 from tv.core import Result
-from tv.cyc import Harness, step
+from tv.cyc import Harness, draw_second, second_fold, second_request, step
 from tv.phases import phased_history
 
 ID = "C24"
@@ -51,7 +51,9 @@ def strategy(draw, tier="quick"):
     # raw integers: [key selector mode, key selector, data]
     methods = {"push": [nkeys, ndata], "write": [4, nkeys, ndata], "read": [4, nkeys], "remove": [4, nkeys]}
     hist = draw(phased_history(methods, PROFILES, 10, hi, first=("fill", "churn", "free")))
-    return {"entries": entries, "addr_widths": akw, "data_widths": dw, "history": hist}
+    second, mask = draw_second(draw, ["push", "write", "read", "remove"])
+    return {"entries": entries, "addr_widths": akw, "data_widths": dw, "history": hist, "second": second,
+            "second_mask": mask}
 
 
 def _split(value, widths, prefix):
@@ -70,7 +72,10 @@ def run_case(case) -> Result:
     alayout = [(f"a{i}", w) for i, w in enumerate(akw)]
     dlayout = [(f"d{i}", w) for i, w in enumerate(dw)]
     res = Result(labels=[f"entries{E}", f"keys{nkeys}"])
-    h = Harness(lambda: ContentAddressableMemory(alayout, dlayout, E))
+    second = case.get("second")
+    h = Harness(lambda: ContentAddressableMemory(alayout, dlayout, E), second_callers=(second,) if second else ())
+    if second:
+        res.labels.append("two_callers_of_" + second)
     flags = dict(
         push_with_remove=False, write_removed_same_cycle=False, push_full_refused=False, full=False, read_hit=False,
         read_miss=False, read_removed_same_cycle=False, read_pushed_same_cycle=False, write_hit=False, write_miss=False,
@@ -79,7 +84,7 @@ def run_case(case) -> Result:
     )
 
     async def tb(ctx):
-        ios = h.ios(["push", "write", "read", "remove"])
+        ios = h.ios(["push", "write", "read", "remove"] + ([second + "_b"] if second else []))
         d = {}  # key -> data (ints)
         removed = set()  # keys that were removed and are absent now
         for cyc, rec in enumerate(case["history"]):
@@ -119,8 +124,12 @@ def run_case(case) -> Result:
                     keys["read"] = pick(mode, sel)
                 reqs["read"] = {"addr": _split(keys["read"], akw, "a")}
             call = {nm: {k: v for k, v in a.items() if k != "_data"} for nm, a in reqs.items()}
+            second_request(case, call, cyc)
             results, _ = await step(ctx, ios, call)
             res.stats["cycles"] = res.stats.get("cycles", 0) + 1
+            msg = second_fold(case, call, results)
+            if msg:
+                return res.fail(f"cycle {cyc}: {msg}")
             where = f"cycle {cyc} (contents {d}, entries {E})"
             for nm, r in results.items():
                 if r is not None and nm not in reqs:
